@@ -119,6 +119,8 @@ def plan_line(img, frames):
         s += ["icc", int(a), m, bytes(prof).hex()]
     if img.get("icc"):                      # optional (C15): already encoded ICC byte stream
         s += ["iccraw", len(img["icc"])] + list(img["icc"])
+    if img.get("xyb"):                      # xyb_encoded (C12: narrow = wide on the decoder's own XYB -> RGB path)
+        s += ["xyb"]
     for k, e in enumerate(img["ecs"]):      # optional (C15): f16 bit patterns r g b solidity
         if e.get("spot"):
             s += ["spot", k] + list(e["spot"])
